@@ -5,6 +5,7 @@ import PhyloModel.Matrix.Store
 import PhyloModel.Matrix.Phylip
 import PhyloModel.Dist.Fold
 import PhyloModel.Matrix.Upgma
+import PhyloModel.Misc.Generators
 /-! Line-protocol driver: runs the executable definitions of the model, one request per line
     (tab-separated fields), one answer line per request.  See /verif/PROTOCOL.md.
     Unknown or ill-formed requests answer `bad-op`; nothing is ever defaulted. -/
@@ -318,6 +319,26 @@ def dispatch (st : DState) (fs : List String) : DState × String :=
   | ["ar.swap"] => ({ st with ar := st.ar2, ar2 := st.ar }, "ok")
   | "sp" :: q => match spQuery st.ar st.ar2 q with | some r => (st, r) | none => bad
   | ["nop"] => (st, "ok")
+  | "gen" :: q =>
+    let encSt (s : GEN.St) (names : List (Nat × Nat)) : String :=
+      "ok " ++ " ".intercalate ((List.range s.size).map (fun i => s!"{i}:" ++ ",".intercalate ((s.kids i).map toString))) ++
+      " | " ++ " ".intercalate ((names.toArray.qsort (fun a b => a.1 < b.1)).toList.map (fun (i, k) => s!"{i}={k}"))
+    match q with
+    | ["ete3", bits] =>
+      match GEN.runG GEN.init (bits.toList.map (· == '1')) with
+      | some s => (st, encSt s (GEN.namesByDeque s))
+      | none => (st, "panic")
+    | ["yule", ks] =>
+      match decNats ks with
+      | some ks => match GEN.runY GEN.init ks with
+        | some s => (st, encSt s (GEN.namesByArena s))
+        | none => (st, "bad-oracle")
+      | none => bad
+    | ["cat", n] =>
+      match n.toNat? with
+      | some n => (st, "ok " ++ " ".intercalate ((GEN.caterpillar n).map (fun (p, t) => s!"{p}:{encOptNat t}")))
+      | none => bad
+    | _ => bad
   | ["up.run", taxa, cells] =>
     match decTaxa taxa, (if cells == "_" then some [] else (words cells).mapM decRat) with
     | some t, some c =>
